@@ -108,3 +108,15 @@ Theorem C14_bytes_declarations_then_statements_graphs :
     flat_events r = ns_events o d ++ flat_map event_of_quad (d_stmts d) /\ pr_end r = PEnd.
 Proof. exact graphs_bytes_round_trip_ns. Qed.
 Print Assumptions C14_bytes_declarations_then_statements_graphs.
+
+(* the rdflib TripleStream (Graph.serialize) with declarations on: the store's bindings, in the order
+   rdflib lists them, then the triples *)
+From PJ.Proofs Require Import EncRdflib EncRdflibNs.
+Theorem C14_rdflib_declarations_and_statements :
+  forall (o : soptions) (s s' : stream) (d : rdata) (evs : list tev),
+    stream_new TripleStream Rdflib o = Ok s -> cfg_ok o (st_logical s) -> fl_rows (st_flow s) = [] ->
+    rd_kind d <> RDataset -> stmts_rdf11 (rd_stmts d) = true ->
+    rdf_triples_stream_frames d s = (s', evs) -> raised evs = None ->
+    run (flat_map f_rows (emitted evs)) = Valid (rdf_ns_events o d ++ flat_map event_of_triple (rd_stmts d)).
+Proof. exact rdf_triples_stream_valid_ns. Qed.
+Print Assumptions C14_rdflib_declarations_and_statements.
